@@ -136,6 +136,54 @@ def configTokens (c : Config Float) : String :=
   s!"{optTok c.signal.thetaDeg} {optTok c.signal.thetaExternalDeg} {fl c.signal.waistUm} " ++
   s!"{autoTok c.signal.waistPositionUm} {fl c.deffPmPerVolt} {idler} {poling}"
 
+/-- token of a rounded field next to the unrounded value it came from (same rule as the harness's
+`rtok`): the rounded value, or — when the unrounded value sits on a rounding tie to within 1e-11
+relative and the rounded value is one of the two neighbours — the tie point itself -/
+def rtok (rounded unrounded : Float) (wraps : Bool := false) : String :=
+  let y := unrounded * 1.0e4
+  let f := y.floor
+  let d := (y - f - 0.5).abs
+  let m := if y.abs < 1.0 then 1.0 else y.abs
+  if d ≤ 1.0e-11 * m then
+    let r := (rounded * 1.0e4).round
+    if r == f || r == f + 1.0 || (wraps && f + 1.0 == 3600000.0 && r == 0.0) then
+      "tie:" ++ fl (2.0 * f + 1.0)
+    else fl rounded
+  else fl rounded
+
+def autoR (a : Auto Float) (u : Float) : String :=
+  match a with
+  | .auto => "A"
+  | .param x => rtok x u
+def optR (a : Option Float) (u : Float) : String :=
+  match a with
+  | none => "-"
+  | some x => rtok x u
+
+/-- configuration tokens of `asConfig s`, rounded fields paired with their unrounded physical values -/
+def configTokensS (s : Setup Float) : String :=
+  let c := asConfig s
+  let beamT (tag : String) (i : BeamCfg Float) (b : Beam Float) (wp : Float) : String :=
+    s!"{tag}{rtok i.wavelengthNm (b.wavelength / nano)} {rtok i.phiDeg (b.phi / deg) true} {optR i.thetaDeg (b.theta / deg)} {optTok i.thetaExternalDeg} {rtok i.waistUm (b.waistX / micro)} {autoR i.waistPositionUm (wp / micro)}"
+  let idler := match c.idler with
+    | .auto => "A"
+    | .param i => beamT "I " i s.idler s.idlerWaistPos
+  let poling := match c.poling, s.pp with
+    | .off, _ => "O"
+    | .config p a, .on period _ sa =>
+      let ap := match a, sa with
+        | .gaussian w, .gaussian fw => s!"gaussian {rtok w (fw / micro)}"
+        | a, _ => apodTokens a
+      s!"P {autoR p (period / micro)} {ap}"
+    | .config p a, _ => s!"P {autoTok p} {apodTokens a}"
+  let sg := c.signal
+  s!"{c.crystal.kind} {PMType.pmIndex c.crystal.pmType} {rtok c.crystal.phiDeg (s.crystal.phi / deg)} {autoR c.crystal.thetaDeg (s.crystal.theta / deg)} " ++
+  s!"{rtok c.crystal.lengthUm (s.crystal.length / micro)} {rtok c.crystal.temperatureC (s.crystal.temperature - kelvin0)} {if c.crystal.counterProp then 1 else 0} " ++
+  s!"{rtok c.pump.wavelengthNm (s.pump.wavelength / nano)} {rtok c.pump.waistUm (s.pump.waistX / micro)} {rtok c.pump.bandwidthNm (s.pumpBandwidth / nano)} {rtok c.pump.averagePowerMw (s.pumpAveragePower / 1.0)} " ++
+  s!"{optTok c.pump.spectrumThreshold} {rtok sg.wavelengthNm (s.signal.wavelength / nano)} {rtok sg.phiDeg (s.signal.phi / deg) true} " ++
+  s!"{optR sg.thetaDeg (s.signal.theta / deg)} {optTok sg.thetaExternalDeg} {rtok sg.waistUm (s.signal.waistX / micro)} " ++
+  s!"{autoR sg.waistPositionUm (s.signalWaistPos / micro)} {rtok c.deffPmPerVolt (s.deff / pmPerVolt)} {idler} {poling}"
+
 /-! key=value descriptors -/
 
 def kvs (ts : List String) : List (String × String) :=
@@ -274,13 +322,13 @@ def extOfSweep (x : List (String × String)) (slot : Nat) : Ext Float :=
 
 def cfgOut (o : Outcome (Setup Float)) : String :=
   match o with
-  | .ok s => configTokens (asConfig s)
+  | .ok s => configTokensS s
   | o => errTok o
 
 /-- configuration of the swept setup plus the stored poling sign (which the configuration omits) -/
 def cfgOutSigned (o : Outcome (Setup Float)) : String :=
   match o with
-  | .ok s => configTokens (asConfig s) ++ " " ++ (match s.pp with
+  | .ok s => configTokensS s ++ " " ++ (match s.pp with
       | .off => "sign:off"
       | .on _ neg _ => if neg then "sign:neg" else "sign:pos")
   | o => errTok o
@@ -290,7 +338,7 @@ def handle (op : String) (args : List String) : Option String :=
   | "try_as_spdc" => tryAsSpdcLine args
   | "as_config" => do
     let (s, _) ← pSetup.run args
-    pure (configTokens (asConfig s))
+    pure (configTokensS s)
   | "sweep_pt" => do
     let (st, rest) := args.span (· != "|")
     let (s, _) ← pSetup.run st
